@@ -616,8 +616,7 @@ def describe(src, edit, toks, sub_lines):
         return ("before-bang", shape, ctx)
     if pt == xtok.ERRORTOKEN and ps.endswith("\n"):
         return ("continuation-indent", shape, ctx)
-    if ct == xtok.ERRORTOKEN and cs.endswith("\n"):
-        return ("before-continuation", shape, ctx)
+    cont = ct == xtok.ERRORTOKEN and cs.endswith("\n")      # the gap ends at a backslash-newline
     if ct == xtok.COMMENT:
         return ("comment-pad", shape, ctx)
     if ps in OPENERS and pt == xtok.OP:
@@ -638,6 +637,8 @@ def describe(src, edit, toks, sub_lines):
         return ("spaced-op", shape, ctx)
     if pt == xtok.NAME and ps in KEYWORDS:
         return ("after-keyword", shape, ctx)
+    if cont:
+        return ("before-continuation", shape, ctx)
     return ("default-gap", shape, ctx)
 
 
